@@ -5,8 +5,8 @@ package mux
 
 import (
 	"bytes"
-	"encoding/json"
 	"encoding/binary"
+	"encoding/json"
 	"errors"
 	"fmt"
 	"net"
@@ -492,7 +492,7 @@ func withHangConfirmation(c any, run func() (ev.Outcome, bool)) ev.Outcome {
 	if o, ok := hangMemo.Load(key); ok {
 		return o.(ev.Outcome)
 	}
-	if hangConfirmed.Load() && hangShrinkBudget.Add(1) > 2 {
+	if hangConfirmed.Load() && hangShrinkBudget.Add(1) > 1 {
 		return ev.Outcome{Excluded: skippedAfterHang}
 	}
 	o, hang := run()
